@@ -74,8 +74,16 @@ fn cmd_io(m: &HashMap<String, String>) -> i32 {
     let property = m.get("property").cloned().unwrap_or_else(|| "C19".to_string());
     let known: Vec<String> = m.get("known").map(|k| k.split(';').filter(|x| !x.is_empty()).map(|x| x.to_string()).collect()).unwrap_or_default();
     let t0 = Instant::now();
+    // --shard s --of n: this process runs, sequentially, the chunks c with c % n == s (DESIGN 3.1.6)
+    let shard: Option<(usize, usize)> = if m.contains_key("shard") { Some((geti(m, "shard", 0) as usize, (geti(m, "of", 1) as usize).max(1))) } else { None };
+    let hashes_out = m.get("hashes-out").cloned();
+    let mut hash_dump: Vec<(Vec<u64>, Vec<u64>)> = vec![];
 
-    let mut res = J::obj().set("engine", J::s("io")).set("seed", J::Int(seed as i64)).set("workers", J::u(workers));
+    let mut res = J::obj().set("engine", J::s("io")).set("seed", J::Int(seed as i64)).set("workers", J::u(if shard.is_some() { 1 } else { workers }));
+    if let Some((sh, of)) = shard {
+        res.put("shard", J::u(sh));
+        res.put("of", J::u(of));
+    }
     let mut violation: Option<(String, i64, io::IoPlan, io::Violation)> = None;
     let mut total_violations = 0usize;
 
@@ -85,14 +93,16 @@ fn cmd_io(m: &HashMap<String, String>) -> i32 {
         let ts = Instant::now();
         let (plans, dims) = io_gen::sweep(sweep_values);
         let n = plans.len();
-        let b = io_run::run_batch(n, workers, None, &known, |i| plans[i].clone());
+        let b = io_run::run_batch_sharded(n, workers, None, &known, shard, |i| plans[i].clone());
+        hash_dump.push((b.all_hashes.clone(), b.nontrivial_hashes.clone()));
         let mut dj = J::obj();
         for (k, v) in &dims {
             dj.put(k, J::u(*v));
         }
         sweep_j = J::obj()
             .set("exhaustive", J::Bool(true))
-            .set("cases", J::u(n))
+            .set("cases", J::u(b.digests.len()))
+            .set("cases_all_shards", J::u(n))
             .set("values_per_type", J::u(sweep_values))
             .set("dimensions", dj)
             .set("distinct_plans", J::u(io_run::count_distinct(b.all_hashes.clone())))
@@ -113,12 +123,13 @@ fn cmd_io(m: &HashMap<String, String>) -> i32 {
     // ---- seeded search
     let ts = Instant::now();
     let deadline = if secs > 0 { Some(Instant::now() + Duration::from_secs(secs)) } else { None };
-    let b = io_run::run_batch(runs, workers, deadline, &known, |i| io_run::seeded_plan(seed, i));
+    let b = io_run::run_batch_sharded(runs, workers, deadline, &known, shard, |i| io_run::seeded_plan(seed, i));
+    hash_dump.push((b.all_hashes.clone(), b.nontrivial_hashes.clone()));
     let done = b.digests.len();
     let mut samples = vec![];
     if !digest_only {
         for i in [0usize, 1, 2, 3, 4, 5, 6, 7] {
-            if i < done {
+            if i < done && shard.map(|(sh, of)| (i / io_run::CHUNK) % of == sh).unwrap_or(true) {
                 let p = io_run::seeded_plan(seed, i);
                 let r = io_run::execute_isolated(&p, true);
                 if r.faults_fired > 0 && samples.len() < 3 {
@@ -129,12 +140,13 @@ fn cmd_io(m: &HashMap<String, String>) -> i32 {
     }
     let prefix: Vec<J> = [1000usize, 10_000, 100_000, 1_000_000]
         .iter()
-        .filter(|n| **n <= done)
+        .filter(|n| **n <= done && shard.is_none())
         .map(|n| J::obj().set("runs", J::u(*n)).set("digest", J::s(&format!("{:016x}", io_run::fold_digests(&b.digests[..*n])))))
         .collect();
     let search_j = J::obj()
         .set("runs", J::u(done))
         .set("runs_requested", J::u(runs))
+        .set("index_bound", J::u(b.max_index_plus_one))
         .set("steps", J::Int(b.steps as i64))
         .set("faults_fired", J::Int(b.faults as i64))
         .set("distinct_plans", J::u(io_run::count_distinct(b.all_hashes.clone())))
@@ -172,9 +184,23 @@ fn cmd_io(m: &HashMap<String, String>) -> i32 {
         if !reproduced {
             // it may depend on per-thread library state left behind by earlier plans of its chunk, or on
             // process-global state left behind by the whole batch prefix: replay the batch as it ran
-            for from in [(idx as usize / io_run::CHUNK) * io_run::CHUNK, 0usize] {
+            for (from, after_sweep) in [((idx as usize / io_run::CHUNK) * io_run::CHUNK, false), (0usize, false), (0usize, true)] {
+                if after_sweep && !(source == "search" && do_sweep) {
+                    continue;
+                }
                 let mut rj2 = io_run::replay_json(&property, seed, idx, &source, &plan, &plan, &v, &r.log);
-                rj2.put("prelude", J::obj().set("source", J::s(&source)).set("from", J::u(from)).set("upto", J::Int(idx)).set("values_per_type", J::u(sweep_values)));
+                let (sh, of) = shard.unwrap_or((0, 1));
+                rj2.put(
+                    "prelude",
+                    J::obj()
+                        .set("source", J::s(&source))
+                        .set("from", J::u(from))
+                        .set("upto", J::Int(idx))
+                        .set("values_per_type", J::u(sweep_values))
+                        .set("shard", J::u(sh))
+                        .set("of", J::u(of))
+                        .set("after_sweep", J::Bool(after_sweep)),
+                );
                 if std::fs::write(&path, rj2.pretty()).is_ok() {
                     let st = std::process::Command::new(&exe).arg("replay").arg(&path).arg("--quiet").status();
                     if matches!(st.as_ref().map(|s| s.code()), Ok(Some(1))) {
@@ -207,6 +233,21 @@ fn cmd_io(m: &HashMap<String, String>) -> i32 {
     }
     res.put("violations", J::u(total_violations));
     res.put("wall_s", J::Num(t0.elapsed().as_secs_f64()));
+    if let Some(hp) = hashes_out {
+        // raw little-endian u64s: for each batch (sweep, search): count, all plan hashes, count, non-trivial ones
+        let mut bytes: Vec<u8> = vec![];
+        for (all, nt) in &hash_dump {
+            for list in [all, nt] {
+                bytes.extend_from_slice(&(list.len() as u64).to_le_bytes());
+                for h in list.iter() {
+                    bytes.extend_from_slice(&h.to_le_bytes());
+                }
+            }
+        }
+        if let Err(e) = std::fs::write(&hp, bytes) {
+            harness_error(&format!("cannot write {}: {}", hp, e));
+        }
+    }
     if let Err(e) = std::fs::write(&out, res.pretty()) {
         harness_error(&format!("cannot write {}: {}", out, e));
     }
